@@ -352,7 +352,9 @@ func (p *PIDZero) Shutdown() {
 			p.wg.Wait()
 		}
 
-		close(p.errorChan) // close the error channel, since no runnables can send errors
+		// errorChan is deliberately left open: after a shutdown timeout a runnable may
+		// still return an error, and a send on a closed channel would panic the process.
+		// The channel is buffered for every runnable, so a late send never blocks.
 
 		totalShutdownTime := time.Since(shutdownStart)
 		p.logger.Debug("Shutdown complete", "duration", totalShutdownTime)
